@@ -10,7 +10,7 @@ Monitors: added/removed by name, changed = "any observable option differs (AUTO 
 from the canonical lines of the two independent parses, nothing reported for an unchanged file, CANT_REREAD leaves the
 file configuration and the group table untouched, update's call sequence and its restriction to named groups.
 """
-import copy, io, os
+import copy, io, os, re
 import config_l1 as L
 from props import c14 as C14
 
@@ -101,10 +101,163 @@ def mutations(rng, cfg, everything):
         out.append(('group-priority', setopt(si, 'priority', '42')))
         out.append(('group-dissolved', [s for i, s in enumerate(secs) if i != si]))
         ren = list(secs); ren[si] = ('group:regrouped', secs[si][1]); out.append(('group-renamed', ren))
+    # loss of an option that is present (the value falls back to its default)
+    present = [(si, k) for si in prog for k, _ in secs[si][1] if k in VALUE_POOL and k != 'process_name']
+    for si, k in (present if everything else rng_pick(rng, present, 3)):
+        s2 = list(secs); s2[si] = (secs[si][0], [(a, b) for a, b in secs[si][1] if a != k]); out.append(('option-dropped:' + k, s2))
+    # every attribute that distinguishes group configurations, one at a time (gain, loss, replacement, reorder)
+    am = attr_mutations(rng, secs)
+    out.extend(am if everything else rng_pick(rng, am, 6))
     if prog:
         out.append(('unparsable', setopt(prog[0], 'startsecs', 'soon')))
     out.append(('unparsable-no-supervisord', [s for s in secs if s[0] != 'supervisord']))
     return out
+
+
+def rng_pick(rng, seq, k):
+    seq = list(seq)
+    return seq if len(seq) <= k else rng.sample(seq, k)
+
+
+# ---------------------------------------------------------------------------------------------------------
+# single-attribute mutations of everything that distinguishes group configurations (all three group kinds):
+# list-valued options gain / lose / replace / reorder / repeat an element; scalar options change up and down, are
+# dropped (back to the default) or written out with their default value (no difference).  The monitors decide from an
+# independent parse whether a mutation is a difference at all.
+# ---------------------------------------------------------------------------------------------------------
+def list_variants(rng, cur, universe, dup=True):
+    out = []
+    free = [x for x in universe if x not in cur]
+    distinct = list(dict.fromkeys(cur))
+    if free:
+        x, y = rng.choice(free), rng.choice(free)
+        i = rng.randrange(len(cur))
+        out.append(('gain', cur + [x]))
+        out.append(('gain', [y] + cur))
+        out.append(('replace-one', cur[:i] + [x] + cur[i + 1:]))
+        out.append(('replace-all', [y]))
+    if len(distinct) >= 2:
+        for i in range(len(cur)):
+            out.append(('loss', cur[:i] + cur[i + 1:]))
+        out.append(('loss-all-but-one', [rng.choice(distinct)]))
+        out.append(('reorder', cur[::-1]))
+        if len(distinct) >= 3:
+            out.append(('reorder', cur[1:] + cur[:1]))
+    if dup:
+        out.append(('repeat', cur + [cur[0]]))
+    return out
+
+
+def attr_mutations(rng, secs):
+    """[(label, sections)]: exactly one option of one section differs from `secs`"""
+    out = []
+    def setopt(si, k, v):
+        s = list(secs); s[si] = (secs[si][0], [(a, b) for a, b in secs[si][1] if a != k] + [(k, v)]); return s
+    def delopt(si, k):
+        s = list(secs); s[si] = (secs[si][0], [(a, b) for a, b in secs[si][1] if a != k]); return s
+    grouped = {p.strip() for s, o in secs if s.startswith('group:') for p in dict(o).get('programs', '').split(',')}
+    free_programs = [s.split(':', 1)[1] for s, _ in secs if s.startswith('program:') and s.split(':', 1)[1] not in grouped]
+    for si, (sname, opts) in enumerate(secs):
+        kind = sname.split(':')[0]
+        d = dict(opts)
+        if kind == 'eventlistener' and d.get('events'):
+            cur = [e.strip() for e in d['events'].split(',') if e.strip()]
+            up = [e.upper() for e in cur]
+            for tag, items in list_variants(rng, up, L.event_names()):
+                out.append(('attr/pool-events-' + tag, setopt(si, 'events', ','.join(items))))
+            out.append(('attr/pool-events-case', setopt(si, 'events', ', '.join(e.swapcase() if i == 0 else e for i, e in enumerate(cur)))))
+            b = int(d.get('buffer_size', '10'))
+            out.append(('attr/pool-buffer-up', setopt(si, 'buffer_size', str(b + rng.choice([1, 1, 90])))))
+            if b > 1:
+                out.append(('attr/pool-buffer-down', setopt(si, 'buffer_size', str(b - 1))))
+            if 'buffer_size' in d:
+                out.append(('attr/pool-buffer-dropped', delopt(si, 'buffer_size')))
+            else:
+                out.append(('attr/pool-buffer-explicit-default', setopt(si, 'buffer_size', '10')))
+            h = d.get('result_handler', L.HANDLER_SPECS[0])
+            out.append(('attr/pool-handler-replaced', setopt(si, 'result_handler', next(x for x in L.HANDLER_SPECS if x != h))))
+            if 'result_handler' in d:
+                out.append(('attr/pool-handler-dropped', delopt(si, 'result_handler')))
+            else:
+                out.append(('attr/pool-handler-explicit-default', setopt(si, 'result_handler', L.HANDLER_SPECS[0])))
+        if kind == 'fcgi-program' and d.get('socket'):
+            sock = d['socket']
+            m = re.match(r'tcp://([^:]+):(\d+)$', sock)
+            if m:
+                port = int(m.group(2))
+                out.append(('attr/fcgi-socket-port', setopt(si, 'socket', 'tcp://%s:%d' % (m.group(1), port + 1 if port < 65535 else port - 1))))
+                out.append(('attr/fcgi-socket-host-case', setopt(si, 'socket', 'tcp://%s:%d' % (m.group(1).swapcase(), port))))
+                out.append(('attr/fcgi-socket-host', setopt(si, 'socket', 'tcp://other.%s:%d' % (m.group(1), port))))
+                out.append(('attr/fcgi-socket-kind', setopt(si, 'socket', 'unix:///tmp/verif_k.sock')))
+            else:
+                out.append(('attr/fcgi-socket-path', setopt(si, 'socket', sock + 'x')))
+                if 'socket_mode' not in d and 'socket_owner' not in d:
+                    out.append(('attr/fcgi-socket-kind', setopt(si, 'socket', 'tcp://localhost:9123')))
+                if 'socket_mode' in d:
+                    out.append(('attr/fcgi-mode-changed', setopt(si, 'socket_mode', '0777' if d['socket_mode'].strip() != '0777' else '0750')))
+                    out.append(('attr/fcgi-mode-dropped', delopt(si, 'socket_mode')))
+                else:
+                    out.append(('attr/fcgi-mode-gain', setopt(si, 'socket_mode', rng.choice(['0770', '0600']))))
+                    out.append(('attr/fcgi-mode-explicit-default', setopt(si, 'socket_mode', '0700')))
+                if 'socket_owner' in d:
+                    out.append(('attr/fcgi-owner-changed', setopt(si, 'socket_owner', 'nobody' if d['socket_owner'].strip() != 'nobody' else 'root')))
+                    out.append(('attr/fcgi-owner-dropped', delopt(si, 'socket_owner')))
+                else:
+                    out.append(('attr/fcgi-owner-gain', setopt(si, 'socket_owner', rng.choice(['root', 'nobody']))))
+            if 'socket_backlog' in d:
+                bl = int(d['socket_backlog'])
+                out.append(('attr/fcgi-backlog-changed', setopt(si, 'socket_backlog', str(bl + 1 if bl < 65535 else bl - 1))))
+                out.append(('attr/fcgi-backlog-dropped', delopt(si, 'socket_backlog')))
+            else:
+                out.append(('attr/fcgi-backlog-gain', setopt(si, 'socket_backlog', str(rng.choice([1, 5, 4096])))))
+        if kind in ('program', 'eventlistener', 'fcgi-program', 'group'):
+            p = d.get('priority')
+            base = int(p) if p is not None else 999
+            out.append(('attr/%s-priority-changed' % kind, setopt(si, 'priority', str(base + rng.choice([-1, 1, 7])))))
+            if p is None:
+                out.append(('attr/%s-priority-explicit-default' % kind, setopt(si, 'priority', '999')))
+            else:
+                out.append(('attr/%s-priority-dropped' % kind, delopt(si, 'priority')))
+        if kind == 'group' and d.get('programs'):
+            members = [x.strip() for x in d['programs'].split(',') if x.strip()]
+            for tag, items in list_variants(rng, members, members + free_programs, dup=False):
+                out.append(('attr/group-programs-' + tag, setopt(si, 'programs', ','.join(items))))
+    return out
+
+
+def attr_base(rng, scratch, fcgi=True):
+    """a small file with every kind of group: three programs (two of them in a [group:x]), two listener pools, two
+    fcgi programs (tcp and unix socket); numprocs <= 2 so that one parse stays cheap"""
+    names = rng.sample([n for n in L.NAMES], 8)
+    def sec(nm, kind):
+        opts, _ = L.gen_program_opts(rng, nm, scratch, kind=kind, rich=rng.random() < 0.3)
+        return [(k, str(min(int(v), 2)) if k == 'numprocs' else v) for k, v in opts]
+    pa, pb, pc, g, l1, l2, f1, f2 = names
+    secs = [('program:' + n, sec(n, 'program')) for n in (pa, pb, pc)]
+    secs.append(('group:' + g, [('programs', pa + ',' + pb)] + ([('priority', str(rng.choice([1, 5, 999, 1000])))] if rng.random() < 0.5 else [])))
+    for nm, nev in ((l1, rng.choice([2, 3, 3, 4])), (l2, 1)):
+        o = sec(nm, 'eventlistener') + [('events', rng.choice([',', ', ']).join(rng.sample(L.event_names(), nev)))]
+        if rng.random() < 0.5:
+            o.append(('buffer_size', str(rng.choice([1, 2, 10, 50]))))
+        if rng.random() < 0.4:
+            o.append(('result_handler', rng.choice(L.HANDLER_SPECS)))
+        rng.shuffle(o)
+        secs.append(('eventlistener:' + nm, o))
+    if fcgi:
+        o = sec(f1, 'fcgi') + [('socket', rng.choice(['tcp://localhost:9%03d' % rng.randrange(1000), 'tcp://Host.Example:80']))]
+        if rng.random() < 0.5:
+            o.append(('socket_backlog', str(rng.choice([1, 128, 65535]))))
+        secs.append(('fcgi-program:' + f1, o))
+        o = sec(f2, 'fcgi') + [('socket', 'unix:///tmp/verif_%d.sock' % rng.randrange(10))]
+        if rng.random() < 0.5:
+            o.append(('socket_mode', rng.choice(['0700', '0770', '0777'])))
+        if rng.random() < 0.3:
+            o.append(('socket_backlog', str(rng.choice([2, 1024]))))
+        if rng.random() < 0.25:
+            o.append(('socket_owner', rng.choice(['root', 'nobody'])))
+        secs.append(('fcgi-program:' + f2, o))
+    rng.shuffle(secs)
+    return [('supervisord', [])] + secs
 
 
 class G:            # stand-in for a running process group: diff_to_active only reads .config
@@ -112,33 +265,86 @@ class G:            # stand-in for a running process group: diff_to_active only 
         self.config = config
 
 
-def canon_group(g):
-    """observable description of a group with AUTO log files as wildcards"""
-    return (L.group_line(g), [L.proc_line(p) for p in g.process_configs])
+SOCKET_EXTRA = {'socket.backlog', 'socket.mode', 'socket.owner'}
+
+
+def group_attrs(g):
+    """the group's own options, read off the configuration object (independent of the model and of group_line)"""
+    kind = type(g).__name__
+    d = {'kind': kind, 'name': g.name, 'priority': g.priority, 'nprocs': len(g.process_configs)}
+    if kind == 'EventListenerPoolConfig':
+        d['buffer_size'] = g.buffer_size
+        d['pool_events'] = tuple(sorted({e.__name__ for e in g.pool_events}))     # a pool is subscribed to a *set* of event types
+        d['result_handler'] = L.handler_spec(g.result_handler)
+    if kind == 'FastCGIGroupConfig':
+        sc = g.socket_config
+        d['socket.url'] = sc.url
+        d['socket.backlog'] = sc.backlog
+        d['socket.mode'] = getattr(sc, 'mode', None)
+        d['socket.owner'] = getattr(sc, 'owner', None)
+    return d
+
+
+def proc_attrs(p):
+    toks = L.proc_line(p).split(' ')
+    return [('name', toks[1])] + [tuple(t.split('=', 1)) for t in toks[2:]]
+
+
+def differing(old, new):
+    """names of the options in which two group configurations differ (a log file set to AUTO matches any file name)"""
+    a, b = group_attrs(old), group_attrs(new)
+    out = [k for k in sorted(set(a) | set(b)) if a.get(k, '<absent>') != b.get(k, '<absent>')]
+    if a['nprocs'] == b['nprocs']:
+        for i, (x, y) in enumerate(zip(old.process_configs, new.process_configs)):
+            for (k, u), (k2, v) in zip(proc_attrs(x), proc_attrs(y)):
+                if u != v and not (k in ('out', 'err') and 'AUTO' in (u, v)):
+                    out.append('process[%d].%s' % (i, k))
+    return out
 
 
 def differs(old, new):
-    a, b = canon_group(old), canon_group(new)
-    if a[0] != b[0] or len(a[1]) != len(b[1]):
-        return True
-    for x, y in zip(a[1], b[1]):
-        fx, fy = x.split(' '), y.split(' ')
-        for u, v in zip(fx, fy):
-            if u != v and not ((u.startswith('out=') or u.startswith('err=')) and ('AUTO' in (u.split('=')[1], v.split('=')[1]))):
-                return True
-    return False
+    return bool(differing(old, new))
+
+
+def only_event_order(old, new):
+    """options.py compares pool_events as the list it built by iterating a set of the listed names: for the same names
+    written in another order (or repeated, or in another case) that list may or may not come out in the same order
+    (string hashing).  Such a pair has no differing option; whether reread lists it is not prescribed."""
+    return (type(old).__name__ == type(new).__name__ == 'EventListenerPoolConfig' and not differing(old, new)
+            and [e.__name__ for e in old.pool_events] != [e.__name__ for e in new.pool_events])
+
+
+def sock_extra(g):
+    if type(g).__name__ != 'FastCGIGroupConfig':
+        return ''
+    sc = g.socket_config
+    f = lambda v: 'None' if v is None else '%d' % v
+    return ' backlog=%s mode=%s' % (f(sc.backlog), f(getattr(sc, 'mode', None)))
+
+
+def cfg_digest(g):
+    return L.group_line(g) + sock_extra(g) + ';' + ';'.join(L.proc_line(p) for p in g.process_configs)
+
+
+def list_digest(gs):
+    return '#'.join(cfg_digest(g) for g in gs) or '-'
 
 
 class Proxy:
     """what supervisorctl talks to: reloadConfig is the real interface, the rest is recorded and applied by precondition"""
-    def __init__(self, rpc, active, fails=()):
+    def __init__(self, rpc, active, fails=(), cache=None):
         self.rpc, self.active, self.calls, self.file_names = rpc, list(active), [], None
         self.fails = set(fails)   # groups one of whose processes cannot be stopped
         self.stopped = set()      # every group of the old file is running until it is stopped
+        self.cache = cache if cache is not None else {}
     def reloadConfig(self):
-        r = self.rpc.reloadConfig()
-        self.file_names = [g.name for g in self.rpc.supervisord.options.process_group_configs]
-        return r
+        # the proxies of one file pair stand for the same daemon state and the same file: the real interface is asked by
+        # the first of them, the others are handed a copy of its answer (the histories go through the real one every time)
+        if 'answer' not in self.cache:
+            self.cache['answer'] = self.rpc.reloadConfig()
+            self.cache['file_names'] = [g.name for g in self.rpc.supervisord.options.process_group_configs]
+        self.file_names = list(self.cache['file_names'])
+        return copy.deepcopy(self.cache['answer'])
     def getAllProcessInfo(self):
         return [{'group': n, 'name': n} for n in self.active]
     def stopProcessGroup(self, n):
@@ -216,7 +422,7 @@ def one_pair(ctx, st, cfg, label, newsecs, tag):
             impl_diff = 'exc ' + type(e).__name__
     finally:
         st_cls['so'].UnhosedConfigParser = st_cls['real_parser']
-    ctx.count('mutation:' + label.split(':')[0]); ctx.count('answer:' + impl_diff.split('=')[0].split(' ')[0])
+    ctx.count('mutation:' + label.split(':')[0].split('~')[0]); ctx.count('direction:reverse' if label.endswith('~rev') else 'direction:forward'); ctx.count('answer:' + impl_diff.split('=')[0].split(' ')[0])
     # ---- monitors ---------------------------------------------------------------------------------------
     if [g.config for g in sup.process_groups.values()] != old_groups:
         ctx.violation('reread-touched-active-groups', 'the group table changed during reloadConfig', inp)
@@ -233,19 +439,27 @@ def one_pair(ctx, st, cfg, label, newsecs, tag):
         if len(newg) == len(fresh.options.process_group_configs):
             want_added = [n for n in (g.name for g in fresh.options.process_group_configs) if n not in oldg]
             want_removed = [n for n in oldg if n not in newg]
-            want_changed = [g.name for g in fresh.options.process_group_configs if g.name in oldg and differs(oldg[g.name], g)]
+            diffs = {g.name: differing(oldg[g.name], g) for g in fresh.options.process_group_configs if g.name in oldg}
+            want_changed = [n for n in diffs if diffs[n]]
+            # same subscriptions written differently: no option differs, but options.py compares hash-ordered lists
+            respelt = {n for n in diffs if only_event_order(oldg[n], newg[n])}
+            for n in respelt:
+                ctx.count('events-respelt:' + ('listed' if n in res[1] else 'not-listed'))
             if sorted(res[0]) != sorted(want_added):
                 ctx.violation('added-not-exact', 'added %r, expected %r' % (res[0], want_added), inp)
             if sorted(res[2]) != sorted(want_removed):
                 ctx.violation('removed-not-exact', 'removed %r, expected %r' % (res[2], want_removed), inp)
-            if sorted(res[1]) != sorted(want_changed):
-                missed = sorted(set(want_changed) - set(res[1])); extra = sorted(set(res[1]) - set(want_changed))
+            if sorted(set(res[1]) - respelt) != sorted(want_changed) or len(set(res[1])) != len(res[1]):
+                missed = sorted(set(want_changed) - set(res[1])); extra = sorted(set(res[1]) - set(want_changed) - respelt)
                 kind = 'changed-not-reported'
                 if missed and all(type(oldg[n]).__name__ == 'FastCGIGroupConfig' and type(newg[n]).__name__ == 'ProcessGroupConfig' for n in missed) and not extra:
                     kind = 'changed-not-reported:fcgi-program-became-program'
+                elif missed and all(set(diffs[n]) <= SOCKET_EXTRA for n in missed) and not extra:
+                    kind = 'changed-not-reported:fcgi-socket-backlog-mode-owner'
                 elif extra and not missed:
                     kind = 'unchanged-reported-as-changed'
-                ctx.violation(kind, 'changed %r, but the groups whose options differ are %r' % (res[1], want_changed), inp)
+                ctx.violation(kind, 'changed %r, but the groups whose options differ are %r (differing options: %r)' % (
+                    res[1], want_changed, {n: diffs[n][:6] for n in missed + extra}), inp)
             if label == 'unchanged' and (res[0] or res[1] or res[2]):
                 ctx.violation('unchanged-file-reports-difference', impl_diff, inp)
             if set(res[0]) & set(res[1]) or set(res[2]) & (set(res[0]) | set(res[1])):
@@ -255,8 +469,12 @@ def one_pair(ctx, st, cfg, label, newsecs, tag):
     if res is not None:
         allnames = sorted(set(res[0]) | set(res[1]) | set(res[2]) | set(oldg))
         argsets = [[]] + [[n] for n in rng_sample(ctx, allnames, 2)] + ([['all']] if allnames else [])
+        cache = {}
+        if label.startswith('attr/'):
+            # (the same mutations also run as histories, where every update rereads through the real interface)
+            cache = {'answer': copy.deepcopy([res]), 'file_names': [g.name for g in o.process_group_configs]}
         for args in argsets:
-            px = Proxy(rpc, [g.name for g in old_groups])
+            px = Proxy(rpc, [g.name for g in old_groups], cache=cache)
             ctl = Ctl(px)
             try:
                 DefaultControllerPlugin(ctl).do_update(' '.join(args))
@@ -276,11 +494,21 @@ def one_pair(ctx, st, cfg, label, newsecs, tag):
                 touched = {bytes.fromhex(c.split(':')[1]).decode() for c in px.calls if c.split(':')[1] != '-'}
                 if touched - (set(res[0]) | set(res[1]) | set(res[2])):
                     ctx.violation('update-touched-unreported-group', 'calls %r for diff %s' % (px.calls, impl_diff), inp)
+                # ... with the file's options: a group that update (re)added got them from the configuration just read,
+                # every other active group still runs with the options it had -- those must already be the file's
+                readded = {bytes.fromhex(c.split(':')[1]).decode() for c in px.calls if c.startswith('add:') and c.split(':')[1] != '-'}
+                if fresh.status == 'ok' and len(newg) == len(fresh.options.process_group_configs):
+                    for n in px.active:
+                        if n in newg and n in oldg and n not in readded:
+                            dd = differing(oldg[n], newg[n])
+                            if dd:
+                                ctx.violation('update-does-not-converge', 'after update %s the group %s still runs with the old file\'s options; it differs from '
+                                              'the file in %r (update issued %r)' % (args, n, dd[:6], px.calls), inp)
         # a stop that reports a failure: the group is neither removed nor re-added (and nothing else is affected)
         cand = sorted(set(res[1]) | set(res[2]))
         if cand:
             fl = rng_sample(ctx, cand, 1)
-            px = Proxy(rpc, [g.name for g in old_groups], fails=fl)
+            px = Proxy(rpc, [g.name for g in old_groups], fails=fl, cache=cache)
             ctl = Ctl(px)
             try:
                 DefaultControllerPlugin(ctl).do_update('')
@@ -302,10 +530,13 @@ def one_pair(ctx, st, cfg, label, newsecs, tag):
         ctx.count('not-modelled'); return
     if any(label.startswith(x) for x in ('unparsable-no',)) and False:
         return
+    if res is not None and fresh.status == 'ok' and any(only_event_order(oldg[n], newg[n]) for n in newg if n in oldg):
+        ctx.count('not-modelled:events-hash-order'); return      # the model compares the subscriptions as a set
     fake = L.Outcome(); fake.parser, fake.include_done, fake.pre_env, fake.here = inst[0], True, pre_env2, o.here
     new_toks = L.model_tokens(fake, L.known_dirs([ctx.scratch]))
     st['cases'].append(('case reread ' + ' '.join(old_toks) + ' -- ' + ' '.join(new_toks), ops))
     st['impls'].append(lines)
+    st.setdefault('origin', {})[st['cases'][-1][0]] = [(cfg['sections'], newsecs)]
     if len(ctx.samples) < 5 and label != 'unchanged':
         ctx.sample({'mutation': label, 'impl': lines[:3]})
 
@@ -396,7 +627,7 @@ def gen_history(rng, scratch):
 
 
 def exact_differs(a, b):
-    return L.cfg_digest(a) != L.cfg_digest(b)
+    return cfg_digest(a) != cfg_digest(b) or group_attrs(a) != group_attrs(b)
 
 
 def run_history(ctx, st, secs0, steps, tag='h'):
@@ -428,12 +659,17 @@ def run_history(ctx, st, secs0, steps, tag='h'):
                    Faults.CANT_REREAD: 'CANT_REREAD'}
 
     def state_line(ans):
-        return '%s | file=%s | active=%s' % (ans, L.list_digest(o.process_group_configs),
-                                             L.list_digest([g.config for g in sup.process_groups.values()]))
+        return '%s | file=%s | active=%s' % (ans, list_digest(o.process_group_configs),
+                                             list_digest([g.config for g in sup.process_groups.values()]))
+
+    fresh_cache = {}
 
     def fresh():
-        f = L.parse_with(L.make_options(L.ENV_VARS), path, reread=True)
-        return f if f.status == 'ok' else None
+        """independent parse of the file now on disk (one per written version)"""
+        if 'f' not in fresh_cache:
+            f = L.parse_with(L.make_options(L.ENV_VARS), path, reread=True)
+            fresh_cache['f'] = f if f.status == 'ok' else None
+        return fresh_cache['f']
 
     def check_file_list(where):
         f = fresh()
@@ -447,11 +683,41 @@ def run_history(ctx, st, secs0, steps, tag='h'):
                           '%s: options.process_group_configs is not the file on disk (groups with other options: %r; names %r vs file %r)' % (
                               where, bad, [g.name for g in got], [g.name for g in want]), inp)
 
+    def hash_order_listed(answer):
+        """reread listed a pool whose subscriptions are merely written differently (see only_event_order)"""
+        byname = {g.name: g for g in o.process_group_configs}
+        return any(n in byname and n in sup.process_groups and only_event_order(sup.process_groups[n].config, byname[n]) for n in answer[0][1])
+
+    def check_subscriptions(where, want=None):
+        """what the event system will really deliver: every subscribed pool is an active group, and (after a converged
+        update, `want` = the file's groups) each active pool is subscribed to exactly the file's event types"""
+        from supervisor.process import EventListenerPool
+        subs = {}
+        for etype, cb in list(events.callbacks):
+            owner = getattr(cb, '__self__', None)
+            if isinstance(owner, EventListenerPool) and getattr(cb, '__func__', None) is not EventListenerPool.handle_rejected:
+                subs.setdefault(id(owner), (owner, set()))[1].add(etype.__name__)
+        active_ids = {id(g): n for n, g in sup.process_groups.items()}
+        for oid, (owner, types) in subs.items():
+            if oid not in active_ids:
+                ctx.violation('removed-pool-still-subscribed', '%s: a pool %r that is not an active group is still subscribed to %r' % (
+                    where, owner.config.name, sorted(types)), inp)
+        if want is not None:
+            for n, g in sup.process_groups.items():
+                if isinstance(g, EventListenerPool) and n in want and type(want[n]).__name__ == 'EventListenerPoolConfig':
+                    file_types = {e.__name__ for e in want[n].pool_events}
+                    got = subs.get(id(g), (g, set()))[1]
+                    if got != file_types:
+                        ctx.violation('pool-subscriptions-not-the-files', '%s: the active pool %s is subscribed to %r, the file says %r' % (
+                            where, n, sorted(got), sorted(file_types)), inp)
+
     class HProxy:
         def __init__(self):
-            self.calls, self.added_now, self.toks, self.parser = [], set(), None, None
+            self.calls, self.added_now, self.toks, self.parser, self.hash_order = [], set(), None, None, False
         def reloadConfig(self):
             (k, r), self.toks, self.parser = L.capture_tokens(o, rpc.reloadConfig, dirs)
+            if k == 'ok' and hash_order_listed(r):
+                self.hash_order = True
             if k == 'exc':
                 if isinstance(r, RPCError):
                     raise xmlrpclib.Fault(r.code, r.text)
@@ -471,18 +737,27 @@ def run_history(ctx, st, secs0, steps, tag='h'):
         def addProcessGroup(self, n):
             self.calls.append('add:' + n); self.added_now.add(n); return self._rpc(rpc.addProcessGroup, n)
 
+    converged = False   # the last operation was a successful unrestricted update and the file has not changed since
     for step in steps:
         if step[0] == 'write':
             L.write_config({'sections': step[1], 'include': []}, ctx.scratch, tag)
+            fresh_cache.clear()
             synced = False
+            converged = False
             continue
         ctx.count('history-op:' + step[0])
+        was_converged, converged = converged, False
         if step[0] == 'reread':
             (k, r), toks, prs = L.capture_tokens(o, rpc.reloadConfig, dirs)
             if k == 'ok':
                 ans = 'added=%s changed=%s removed=%s' % tuple(names(x) for x in r[0])
                 synced = True
                 check_file_list('after reread')
+                if hash_order_listed(r):
+                    ctx.count('history:events-hash-order'); modelled = False
+                elif was_converged and (r[0][0] or r[0][1] or r[0][2]):
+                    ctx.violation('reread-after-update-reports-difference', 'update converged and the file did not change, yet reread answers %s' % ans, inp)
+                converged = was_converged
             elif isinstance(r, RPCError):
                 ans = fault_names.get(r.code, 'fault %s' % r.code)
             else:
@@ -519,9 +794,14 @@ def run_history(ctx, st, secs0, steps, tag='h'):
                         if n in px.added_now:
                             if exact_differs(active[n], want[n]):      # a group update just (re)added has the file's options, exactly
                                 ctx.violation('update-does-not-converge', 'update %r activated %s with options other than the file\'s: %s / file %s' % (
-                                    step[1], n, L.cfg_digest(active[n])[:300], L.cfg_digest(want[n])[:300]), inp)
+                                    step[1], n, cfg_digest(active[n])[:300], cfg_digest(want[n])[:300]), inp)
                         elif unrestricted and differs(active[n], want[n]):   # untouched groups: equal up to the AUTO wildcard
-                            ctx.violation('update-does-not-converge', 'after update %s still differs from the file' % n, inp)
+                            ctx.violation('update-does-not-converge', 'after update %s still differs from the file in %r' % (n, differing(active[n], want[n])[:6]), inp)
+                    if unrestricted:
+                        check_subscriptions('after update %r' % (step[1],), want)
+                        converged = True
+            if px.hash_order:
+                ctx.count('history:events-hash-order'); modelled = False
             if px.toks is None or not C14.in_model_subset(px.parser):
                 modelled = False
             else:
@@ -539,15 +819,18 @@ def run_history(ctx, st, secs0, steps, tag='h'):
                     want = {x.name: x for x in f.options.process_group_configs}
                     if g in want and exact_differs(sup.process_groups[g].config, want[g]):
                         ctx.violation('added-group-has-stale-options', 'add %s after a reread of the current file: %s / file %s' % (
-                            g, L.cfg_digest(sup.process_groups[g].config)[:300], L.cfg_digest(want[g])[:300]), inp)
+                            g, cfg_digest(sup.process_groups[g].config)[:300], cfg_digest(want[g])[:300]), inp)
             ops.append('%s %s' % (step[0], L.hx(g)))
         lines.append(state_line(ans))
+        check_subscriptions('after %s' % step[0])
         ctx.count('history-answer:' + ans.split('=')[0].split(' ')[0])
     events.clear()
     ctx.case_done(('history', repr(secs0), repr(steps)), True)
     if modelled and len(ops) == len(lines):
         st['hcases'].append(('case history ' + ' '.join(toks0), ops))
         st['himpls'].append(lines)
+        files = [secs0] + [x[1] for x in steps if x[0] == 'write']
+        st.setdefault('origin', {}).setdefault(st['hcases'][-1][0], []).extend(zip(files, files[1:]))
         if len(ctx.samples) < 6:
             ctx.sample({'history': [x[0] if x[0] == 'write' else list(x) for x in steps], 'impl_answers': [l.split(' | ')[0] for l in lines]})
     else:
@@ -571,31 +854,183 @@ HISTORY_CORPUS = [
 ]
 
 
+_SUP = ('supervisord', [])
+
+
+def _fcgi(sock, *extra):
+    return [_SUP, ('fcgi-program:f', [('command', '/bin/cat'), ('socket', sock)] + list(extra))]
+
+
+def _pool(events, *extra):
+    return [_SUP, ('program:web', [('command', '/bin/cat'), ('autostart', 'false')]),
+            ('eventlistener:listener', [('command', '/bin/cat'), ('autostart', 'false'), ('buffer_size', '20'), ('events', events)] + list(extra))]
+
+
 CORPUS = [
     ('kind:fcgi->program', [('supervisord', []), ('fcgi-program:a', [('command', '/bin/a'), ('socket', 'tcp://localhost:9000')])],
      [('supervisord', []), ('program:a', [('command', '/bin/a')])]),
     ('option:stdout_logfile', [('supervisord', []), ('program:a', [('command', '/bin/a'), ('stdout_logfile', 'AUTO')])],
      [('supervisord', []), ('program:a', [('command', '/bin/a'), ('stdout_logfile', '/tmp/x.log')])]),
+    # F44 (fixed a91c18a): the socket options beside the url are part of an fcgi group's configuration
+    ('attr/fcgi-backlog-changed', _fcgi('tcp://localhost:9000', ('socket_backlog', '10')), _fcgi('tcp://localhost:9000', ('socket_backlog', '999'))),
+    ('attr/fcgi-mode-changed', _fcgi('unix:///tmp/f.sock', ('socket_mode', '0700')), _fcgi('unix:///tmp/f.sock', ('socket_mode', '0777'))),
+    ('attr/fcgi-owner-changed', _fcgi('unix:///tmp/f.sock', ('socket_owner', 'root')), _fcgi('unix:///tmp/f.sock', ('socket_owner', 'nobody'))),
+    ('attr/fcgi-backlog-gain', _fcgi('unix:///tmp/f.sock'), _fcgi('unix:///tmp/f.sock', ('socket_backlog', '5'))),
+    # subscriptions of a listener pool: replaced, lost (one, two), gained, reordered (seeded C15-4: one-sided containment)
+    ('attr/pool-events-replace-one', _pool('PROCESS_STATE_RUNNING,PROCESS_STATE_EXITED'), _pool('PROCESS_STATE_RUNNING,PROCESS_STATE_FATAL')),
+    ('attr/pool-events-loss', _pool('PROCESS_STATE_RUNNING,PROCESS_STATE_EXITED'), _pool('PROCESS_STATE_RUNNING')),
+    ('attr/pool-events-loss', _pool('TICK_5,TICK_60,PROCESS_LOG'), _pool('TICK_60')),
+    ('attr/pool-events-gain', _pool('PROCESS_STATE_RUNNING'), _pool('PROCESS_STATE_RUNNING,PROCESS_STATE_EXITED')),
+    ('attr/pool-events-reorder', _pool('TICK_5,TICK_60,PROCESS_LOG'), _pool('PROCESS_LOG,TICK_60,TICK_5')),
+    ('attr/pool-buffer-down', _pool('TICK_5'), _pool('TICK_5', ('buffer_size', '19'))),
+    ('attr/pool-handler-replaced', _pool('TICK_5'), _pool('TICK_5', ('result_handler', L.HANDLER_SPECS[1]))),
 ]
+
+_UPD = [('reread',), ('update', []), ('reread',)]
+HISTORY_CORPUS += [
+    (_pool('PROCESS_STATE_RUNNING,PROCESS_STATE_EXITED'), [('write', _pool('PROCESS_STATE_RUNNING'))] + _UPD),
+    (_pool('TICK_5,TICK_60,PROCESS_LOG'), [('write', _pool('TICK_60'))] + _UPD),
+    (_pool('PROCESS_STATE_RUNNING'), [('write', _pool('PROCESS_STATE_RUNNING,PROCESS_STATE_EXITED'))] + _UPD),
+    (_pool('TICK_5,TICK_60'), [('write', _pool('TICK_60,TICK_5'))] + _UPD),
+    (_pool('TICK_5'), [('write', _pool('TICK_5', ('buffer_size', '3')))] + _UPD + [('write', _pool('TICK_5')), ('update', ['listener']), ('reread',)]),
+]
+
+
+def _done(ctx):
+    """while searching for a failing input: stop at the first one"""
+    return ctx.searching and bool(ctx.violations)
+
+
+def attr_population(ctx, st, rng, nbases, per_base_histories):
+    """every single-attribute mutation of every group kind, in both directions, as file pairs; a sample of them (no
+    fcgi sections: activating one binds its socket) as write / reread / update / reread histories against one daemon"""
+    for _ in range(nbases):
+        base = attr_base(rng, ctx.scratch)
+        muts = attr_mutations(rng, base)
+        for label, new in muts:
+            one_pair(ctx, st, {'sections': base}, label, new, 'a')
+            one_pair(ctx, st, {'sections': new}, label + '~rev', base, 'a')
+            if _done(ctx):
+                return
+        hbase = [x for x in base if not x[0].startswith('fcgi-program:')]
+        hm = attr_mutations(rng, hbase)
+        for label, new in rng_pick(rng, hm, per_base_histories):
+            a, b = (hbase, new) if rng.random() < 0.5 else (new, hbase)
+            ctx.count('history-mutation:' + label)
+            run_history(ctx, st, a, [('write', b)] + _UPD, 'h')
+            if _done(ctx):
+                return
+
+
+class Background:
+    """the model side of ctx.correspond, run over chunks of the cases in worker threads (the driver is a subprocess, so
+    the chunks run in parallel with each other and with the implementation side); wait() then compares chunk by chunk
+    in submission order through ctx.correspond itself"""
+    def __init__(self, ctx):
+        import threading
+        self.ctx, self.jobs, self.T, self.real_drive = ctx, [], threading, ctx.drive
+
+    def submit(self, name, cases, impls, chunk=150):
+        for i in range(0, len(cases), chunk):
+            job = {'name': name, 'cases': cases[i:i + chunk], 'impls': impls[i:i + chunk], 'model': None, 'error': None}
+            job['thread'] = self.T.Thread(target=self._work, args=(job,))
+            job['thread'].start()
+            self.jobs.append(job)
+
+    def _work(self, job):
+        try:
+            job['model'] = self.real_drive(job['cases'])
+        except BaseException as e:
+            job['error'] = e
+
+    def wait(self):
+        jobs, self.jobs = self.jobs, []
+        for job in jobs:
+            job['thread'].join()
+        for job in jobs:
+            if job['error'] is not None:
+                raise job['error']
+            self.ctx.drive = lambda _cases, m=job['model']: m
+            try:
+                self.ctx.correspond(job['name'], job['cases'], job['impls'])
+            finally:
+                del self.ctx.drive
+
+
+_LAST = {}
 
 
 def run(ctx):
     rng = ctx.rng
-    st = {'cases': [], 'impls': [], 'hcases': [], 'himpls': []}
+    st = {'cases': [], 'impls': [], 'hcases': [], 'himpls': [], 'origin': {}}
     for label, old, new in CORPUS:
         one_pair(ctx, st, {'sections': old}, label, new, 'c')
+        one_pair(ctx, st, {'sections': new}, label + '~rev', old, 'c')
     for secs0, steps in HISTORY_CORPUS:
         run_history(ctx, st, secs0, steps)
-    for i in range(ctx.n(12, 110)):
+    attr_population(ctx, st, rng, ctx.n(2, 16), 30 if ctx.tier == 'quick' else 60)
+    for i in range(ctx.n(8, 80)):
         cfg = L.gen_config(rng, ctx.scratch, small=True)
         cfg['include'] = []
         for label, newsecs in mutations(rng, cfg, everything=(i % 8 == 0)):
             one_pair(ctx, st, cfg, label, newsecs, 'p')
-    for i in range(ctx.n(60, 500)):
-        secs0, steps = gen_history(rng, ctx.scratch)
-        run_history(ctx, st, secs0, steps)
-    ctx.correspond('reread', st['cases'], st['impls'])
-    ctx.correspond('history', st['hcases'], st['himpls'])
+    bg = Background(ctx)
+    if ctx.driver_path:
+        bg.submit('reread', st['cases'], st['impls'])
+    try:
+        for i in range(ctx.n(50, 450)):
+            secs0, steps = gen_history(rng, ctx.scratch)
+            run_history(ctx, st, secs0, steps)
+        if ctx.driver_path:
+            bg.submit('history', st['hcases'], st['himpls'], chunk=40)
+    finally:
+        bg.wait()
+    _LAST['origin'] = st['origin']
+
+
+def search(ctx):
+    """failing-input search after a broken proof / correspondence (monitors only, stops at the first failing input):
+    (1) the neighbourhood of every file pair on which model and implementation disagreed: each section that differs
+        between the two files gets every single-attribute / single-option mutation, applied to either file, in both
+        directions (a disagreement on 'one event replaced' leads to 'one event lost', 'one gained', 'reordered' ...);
+    (2) a bounded sweep of all single-attribute mutations over fresh small files of every group kind."""
+    rng = ctx.rng
+    st = {'cases': [], 'impls': [], 'hcases': [], 'himpls': [], 'origin': {}}
+    origin = _LAST.get('origin', {})
+    seen = set()
+    for b in ctx.broken:
+        if b.get('kind') != 'correspondence' or not isinstance(b.get('input'), dict):
+            continue
+        for old, new in origin.get(b['input'].get('case'), [])[:4]:
+            od, nd = dict((s, o) for s, o in old), dict((s, o) for s, o in new)
+            hot = [s for s in od if s in nd and sorted(od[s]) != sorted(nd[s]) and s != 'supervisord']
+            for secs in (old, new):
+                cands = []
+                for label, m in attr_mutations(rng, secs) + mutations(rng, {'sections': secs}, everything=True):
+                    md = dict((s, o) for s, o in m)
+                    sd = dict((s, o) for s, o in secs)
+                    if any(s in md and sorted(md[s]) != sorted(sd[s]) for s in hot) and len(md) == len(sd):
+                        cands.append((label, m))
+                for label, m in cands:
+                    key = repr((secs, m))
+                    if key in seen:
+                        continue
+                    seen.add(key)
+                    ctx.count('search:neighbourhood')
+                    one_pair(ctx, st, {'sections': secs}, label, m, 'n')
+                    one_pair(ctx, st, {'sections': m}, label + '~rev', secs, 'n')
+                    if _done(ctx):
+                        return
+    attr_population(ctx, st, rng, 6 if ctx.tier == 'quick' else 24, 40)
+    if _done(ctx):
+        return
+    for i in range(6 if ctx.tier == 'quick' else 40):
+        cfg = L.gen_config(rng, ctx.scratch, small=True)
+        cfg['include'] = []
+        for label, newsecs in mutations(rng, cfg, everything=True):
+            one_pair(ctx, st, cfg, label, newsecs, 'p')
+            if _done(ctx):
+                return
 
 
 def replay(ctx, data):
